@@ -1,6 +1,7 @@
 import Chewing.Proofs.TrieBufSorted
 import Chewing.Proofs.TrieBufSettle
 import Chewing.Proofs.SqliteDict
+import Chewing.Proofs.TrieLink
 /-!
 # C09 — Mutable dictionaries behave as a map under any update history
 
@@ -662,6 +663,64 @@ theorem sqlite_readd_visible_again (s : SqliteDict.State) (hs : SqliteDict.Inv s
     cases p; simp_all
   rw [← this]; exact hp
 
+/-! ## 9. The file layer: C09's abstract trie file is C11's byte-level file
+
+C09 models a trie file as the list of its leaves and "insert everything into a `TrieBuilder`, write,
+open" as `Trie.build` (used by `checkpoint` for the snapshot and, through `DictLink`, by C10 and C08).
+C11 models the same code at the level of the bytes.  The theorems of this section (proved in
+`Proofs/TrieLink.lean` from C11's `read_write`, `lookup_correct`, `first_n_prefix`,
+`first_phrase_correct`, `entries_correct`, `writes_within_limits`) identify the two, so that "a complete
+file is the leaves written" is a theorem, not an assumption. -/
+
+/-- the two transcriptions of the comparator of `TrieBuilder::write` (C09's `leafCmp`, C11's `phraseLt`)
+    are the same function -/
+theorem comparator_is_C11 (a b : Phrase) : Trie.leafLt a b = TrieCodec.phraseLt a b :=
+  TrieLink.leafLt_eq_phraseLt a b
+
+/-- C09's leaf sort (insertion from the left) and C11's (insertion from the right) give the same leaf -/
+theorem leaf_order_is_C11 (ps : List Phrase) : isort Trie.leafLt ps = TrieCodec.sortLeaf ps :=
+  TrieLink.isort_leafLt_eq_sortLeaf ps
+
+/-- … as does **every** stable sort: a list that is sorted by the comparator and keeps every class of
+    equally-ranked phrases in insertion order is the model's leaf (the comparator is a total preorder
+    since fix ddfe893), so the model does not depend on the algorithm `slice::sort_by` runs -/
+theorem leaf_order_any_stable_sort (ps r : List Phrase) (hs : StableSort.Sorted TrieCodec.phraseLt r)
+    (hst : StableSort.StableOf TrieCodec.phraseLt (fun _ => True) ps r) : r = isort Trie.leafLt ps := by
+  rw [leaf_order_is_C11]; exact TrieLink.stable_sort_is_sortLeaf ps r hs hst
+
+/-- the two models of `TrieBuilder::insert` hold the same phrase vector for every key -/
+theorem builder_insert_is_C11 (es : List Entry) (k : Key) : Trie.leafOf es k = (C11.inserted es k).getD [] :=
+  TrieLink.leafOf_eq_refFind es k
+
+/-- **the file layer of C09 is C11.**  For all metadata and every list of entries valid for the Rust
+    types: inside the limits of the format (`Fits`) `TrieBuilder::write` succeeds, and whatever bytes it
+    produced *denote* C09's abstract file `Trie.build es` (`TrieLink.Denotes`): `Trie::new` opens them, and
+    for every query of non-zero syllables the real reader's `lookup_all_phrases` (exact and prefix
+    strategy), `lookup_first_n_phrases` and `lookup_first_phrase` return **the same list** as C09's
+    `Trie.lookupAll` / `Trie.lookupFirstN` on `Trie.build es`; `entries()` enumerates the entries of
+    `Trie.build es` (a permutation: the real iterator goes depth first), key by key in the same order. -/
+theorem file_layer_is_C11 (info : TrieCodec.Info) (es : List Entry) (hv : C11.ValidInput info es) :
+    ((TrieCodec.Builder.ofEntries info es).Fits → ((TrieCodec.Builder.ofEntries info es).write).isSome = true) ∧
+    ∀ bytes, (TrieCodec.Builder.ofEntries info es).write = some bytes → TrieLink.Denotes bytes (Trie.build es) :=
+  ⟨C11.writes_within_limits _, fun bytes hw => TrieLink.build_denotes info es hv bytes hw⟩
+
+/-- the lookup clause of `file_layer_is_C11`, spelled out -/
+theorem file_lookup_is_C11 (info : TrieCodec.Info) (es : List Entry) (hv : C11.ValidInput info es) (bytes : Der.Bytes)
+    (hw : (TrieCodec.Builder.ofEntries info es).write = some bytes) :
+    ∃ tr, TrieCodec.openTrie bytes = some tr ∧ ∀ k st, C11.ValidKey k →
+      TrieCodec.lookupAll tr k st = Trie.lookupAll (Trie.build es) k st ∧
+      ∀ n, TrieCodec.lookupFirstN tr k n st = Trie.lookupFirstN (Trie.build es) k n st := by
+  obtain ⟨tr, ho, h1, h2, _⟩ := (TrieLink.build_denotes info es hv bytes hw).reads
+  exact ⟨tr, ho, fun k st hk => ⟨h1 k st hk, fun n => h2 k n st hk⟩⟩
+
+/-- a snapshot taken by `checkpoint` (`Trie.build (entries s)`) is such a file: in a state whose
+    entries are valid for the Rust types and within the limits, the bytes exist and denote it -/
+theorem snapshot_file_is_C11 (info : TrieCodec.Info) (s : State) (hv : C11.ValidInput info (entries s))
+    (hf : (TrieCodec.Builder.ofEntries info (entries s)).Fits) :
+    ∃ bytes, (TrieCodec.Builder.ofEntries info (entries s)).write = some bytes ∧
+      TrieLink.Denotes bytes (Trie.build (entries s)) :=
+  TrieLink.build_denotes_fits info (entries s) hv hf
+
 /-! ## 8. Non-vacuity: the hypotheses are satisfiable and the classes are inhabited -/
 
 /-- F09 regression (fixed): remove then re-add / update is visible again, also across a snapshot -/
@@ -697,5 +756,24 @@ example : Layered.lookupAll
     [(TrieBuf.toDict (run initMem [.add kCe4 [28204] 1 none, .add kCe4 [20874] 1 none, .add kCe4 [20596] 1 none])),
      (TrieBuf.toDict (run initMem [.add kCe4 [31574] 100 none, .add kCe4 [20874] 100 none]))] kCe4 .standard
     = [⟨[20596], 1, some 0⟩, ⟨[20874], 100, some 0⟩, ⟨[28204], 1, some 0⟩, ⟨[31574], 100, some 0⟩] := by decide
+
+/-- §9: a leaf mixing a single character with longer phrases — both models put the single character first,
+    then descending frequency (before fix ddfe893 C09's comparator compared UTF-8 lengths here) -/
+example : isort Trie.leafLt [⟨[1, 2], 5, none⟩, ⟨[3], 1, none⟩, ⟨[4, 5], 7, none⟩] =
+    [⟨[3], 1, none⟩, ⟨[4, 5], 7, none⟩, ⟨[1, 2], 5, none⟩] ∧
+    TrieCodec.sortLeaf [⟨[1, 2], 5, none⟩, ⟨[3], 1, none⟩, ⟨[4, 5], 7, none⟩] =
+    [⟨[3], 1, none⟩, ⟨[4, 5], 7, none⟩, ⟨[1, 2], 5, none⟩] := by decide
+
+/-- §9: the hypotheses of `file_layer_is_C11` hold for C11's sample input, the file is written, and C09's
+    abstract file for it has the two leaves ㄘㄜˋ (測 re-inserted in place, then 冊) and ㄘㄜˋ ㄕˋ -/
+example : C11.ValidInput {} C11.sampleEntries := by
+  refine ⟨by unfold TrieCodec.ValidInfo; decide, ?_⟩
+  intro e he
+  simp only [C11.sampleEntries, List.mem_cons, List.not_mem_nil, or_false] at he
+  rcases he with rfl | rfl | rfl | rfl <;> exact ⟨by decide, by decide⟩
+example : ((TrieCodec.Builder.ofEntries {} C11.sampleEntries).write).isSome = true := by decide
+example : Trie.build C11.sampleEntries =
+    [([10268], [{ text := [28204], freq := 9 }, { text := [20874], freq := 70000 }]),
+     ([10268, 8708], [{ text := [28204, 35430], freq := 100, lastUsed := some 5 }])] := by decide
 
 end Chewing.C09
